@@ -289,6 +289,11 @@ pub const GAMUT: [OpParameter; 10] = [
 pub fn new(parameters: &RawParameters, _ctx: &dyn Context) -> Result<Op, Error> {
     let def = &parameters.definition;
     let params = ParsedParameters::new(parameters, &GAMUT)?;
+    // The azimuth of the initial line has no meaningful default (gamma_c has:
+    // without it, we take the Laborde case), so it must be given
+    if params.real("alpha")?.is_nan() {
+        return Err(Error::MissingParam("alpha".to_string()));
+    }
     let descriptor = OpDescriptor::new(def, InnerOp(fwd), Some(InnerOp(inv)));
     let steps = Vec::<Op>::new();
     let id = OpHandle::new();
